@@ -53,7 +53,12 @@ def scores_native(vc):
     vc.ensures("marginal_likelihood_gradient_is_true_gradient",
                bool(np.allclose(g, gf, rtol=1e-5, atol=1e-6 * max(1.0, float(np.abs(gf).max())))))
     # leave-one-out: actually remove each point and predict it from the rest
-    gp.set_hyperparameters(th)
+    # (the hyper-parameters in use are set through one array object updated in place, as an optimiser's parameter buffer is:
+    # the predictions must belong to the values now in the array)
+    buf = np.array(theta, dtype=float) + 0.05
+    gp.set_hyperparameters(buf)
+    buf[:] = th
+    gp.set_hyperparameters(buf)
     mu_loo, sd_loo = gp.loo_predictions()
     import copy
     from inference.gp import GpRegressor
@@ -224,6 +229,12 @@ def _loo(vc, st):
     assumed -- and compared with a refit in the bounded layer)"""
     a, var, mu = _loo_terms(vc, st)
     return S.mul(S.div(-1, 2), vc.sum(st.n, lambda i: S.add(S.mul(var(i), S.mul(a.at(i), a.at(i))), vc.log(var(i)))))
+
+
+# loo_predictions() reads the state left by set_hyperparameters: its contracts (C02) are checked under this property as well
+from contracts.c02_gp_regression import set_hyperparameters as _shp, set_hyperparameters_again as _shpa
+contract("C11", "set_hyperparameters", native=False, replay_with="scores_native")(_shp)
+contract("C11", "set_hyperparameters_again", native=False, replay_with="scores_native")(_shpa)
 
 
 @contract("C11", "loo_predictions", native=False, replay_with="scores_native")
